@@ -734,6 +734,22 @@ pub fn summary(out: TraceOut) -> Value {
 /// boundaries (2^7, 2^14, 2^21 -1/+0/+1; 2^28 in the heavy tier), written and read back.
 pub fn scn_framing(out: &mut TraceOut, r: &mut R, idx: u64, heavy: bool) {
     let lens: [usize; 11] = [0, 1, 127, 128, 129, 16383, 16384, 16385, 2097151, 2097152, 2097153];
+    if heavy && idx % 29 == 27 {
+        // a KEY on the 2^28 boundary (keys ordered by their first byte, see Dict::event)
+        let kl = (1usize << 28) - 1 + (idx as usize / 29) % 3;
+        let cfg = Cfg { codec: 0, level: 0, block_size: 1024, interval: 8, levels: 1 };
+        let entries: Vec<Entry> = vec![(vec![1u8], value_for(1, 3)), (vec![5u8; kl], value_for(2, 9)), (vec![7u8], value_for(3, 0))];
+        let (dict, data) = build_and_log(out, &cfg, &entries, &[], 2);
+        let Some(data) = data else { return };
+        let mut s = new_session(out, entries, dict, data);
+        if let Some(c) = s.cursor(true) {
+            s.scan(c, true);
+        }
+        if let Some(c) = s.cursor(true) {
+            s.scan(c, false);
+        }
+        return;
+    }
     let (kl, vl) = if heavy && idx % 29 == 28 {
         (4usize, (1usize << 28) - 1 + (idx as usize / 29) % 3)
     } else {
